@@ -97,6 +97,10 @@ def run(chk):
                                                     e[1:4] if e[0] not in ("board", "eths") else "")
 
     chk.validate("Spinn5Trace", "Spinn5Trace.cfg", traces, key_of=key_of, batch=400)
+    # beyond the property: the wizard protocol (rig.wizard uses standard_system_dimensions), its command-line
+    # front-end and unbooted_ping.listen, judged against Wizard.tla
+    from . import wizard
+    wizard.run_beyond(chk)
 
 
 def selftest(chk):
